@@ -469,10 +469,15 @@ def known_match(pid, key):
     return None
 
 
+_REPLAY_COUNTER = 0
+
+
 def write_replay(pid, tier, seed, payload):
     d = VERIF / 'replays'
     d.mkdir(exist_ok=True)
-    p = d / ('%s_%s_%d_%d.json' % (pid, tier, seed, int(time.time() * 1000) % 10 ** 9))
+    global _REPLAY_COUNTER
+    _REPLAY_COUNTER += 1
+    p = d / ('%s_%s_%d_%d_%d.json' % (pid, tier, seed, int(time.time() * 1000) % 10 ** 9, _REPLAY_COUNTER))
     payload = dict(payload)
     payload['property'] = pid
     payload['tier'] = tier
